@@ -85,6 +85,49 @@ class Universe:
         return isinstance(k, tuple) and k[0] == "origin" and k[1] in RAMP_KINDS
 
 
+PROBE_LOG = []  # (class name, method name, engine object received) of every call made on a probe element
+_PROBE_CLASSES = {}
+
+
+def as_probe_subclass(o):
+    """Turns a library element into an instance of a user-defined subclass that overrides every method taking an
+    `engine` argument: the override records the engine object it receives in PROBE_LOG and delegates to the library
+    method.  (What a user-defined element that really uses the engine handed to it would see.)"""
+    import functools
+    import inspect
+    cls = type(o)
+    sub = _PROBE_CLASSES.get(cls)
+    if sub is None:
+        ns = {"__slots__": ()}
+        for name in dir(cls):
+            f = getattr(cls, name, None)
+            if name.startswith("__") or not inspect.isfunction(f):
+                continue
+            try:
+                sig = inspect.signature(f)
+            except (TypeError, ValueError):
+                continue
+            has_kw = any(p_.kind is inspect.Parameter.VAR_KEYWORD for p_ in sig.parameters.values())
+            if "engine" not in sig.parameters and not (has_kw and "net" in sig.parameters):
+                continue  # (methods taking the network and **kwargs are hooks an override of which may use the engine)
+
+            def make(f=f, sig=sig, name=name):
+                @functools.wraps(f)
+                def probe(self, *a, **k):
+                    try:
+                        args_ = sig.bind(self, *a, **k).arguments
+                        eng = args_["engine"] if "engine" in args_ else k.get("engine")
+                    except TypeError:
+                        eng = k.get("engine")
+                    PROBE_LOG.append((cls.__name__, name, eng))
+                    return f(self, *a, **k)
+                return probe
+            ns[name] = make()
+        sub = _PROBE_CLASSES[cls] = type("Probe" + cls.__name__, (cls,), ns)
+    o.__class__ = sub
+    return o
+
+
 STD_UNIVERSE = {
     "a": "node", "b": "node", "c": "node",
     "L1": "link", "L2": "link",
